@@ -13,22 +13,48 @@ Open Scope string_scope.
 
 (* ---- (i) operators ------------------------------------------------------------------------------- *)
 (* every infix operator body of operators.py computes the documented function on all of Z, and
-   reports an error in exactly the documented cases (division by zero, negative << >> count) *)
-Theorem C05_ops_agree_bin : forall (o : binop) (a b : Z),
+   reports an error in exactly the documented cases (division by zero, negative << >> count, a left
+   shift by more than 65536 bits is refused with 'too-complex').  The only condition: for >> the count
+   is not below -65536 (there the code reports 'arithmetic-error' as documented and, going on to shift
+   left by -b, refuses that too: C05_ops_agree_bin_all covers it) *)
+Theorem C05_ops_agree_bin : forall (o : binop) (a b : Z), count_ok o b ->
   exists f, infix_body (binop_text o) = Some f /\ res_of (f a b) = sem_bin o a b.
 Proof. exact ops_agree_bin. Qed.
 Print Assumptions C05_ops_agree_bin.
+
+(* unconditionally: the body gives the documented value, or reports every error the documentation names *)
+Theorem C05_ops_agree_bin_all : forall (o : binop) (a b : Z),
+  exists f, infix_body (binop_text o) = Some f /\ res_covers (res_of (f a b)) (sem_bin o a b).
+Proof. exact ops_agree_bin_all. Qed.
+Print Assumptions C05_ops_agree_bin_all.
 
 Theorem C05_ops_agree_un : forall (u : unop) (a : Z),
   exists f, prefix_body (unop_text u) = Some f /\ res_of (f a) = sem_un u a.
 Proof. exact ops_agree_un. Qed.
 Print Assumptions C05_ops_agree_un.
 
-(* no raising case of Python's // % << >> ** and no failing assert is reachable in an operator body *)
-Theorem C05_ops_no_crash : forall (o : binop) (a b : Z),
-  exists f, infix_body (binop_text o) = Some f /\ forall s, f a b <> Crash s.
-Proof. exact ops_no_crash_bin. Qed.
-Print Assumptions C05_ops_no_crash.
+(* the only exception an operator body can raise is the MemoryError by which a left shift beyond the
+   bound is refused: no ZeroDivisionError, no ValueError, no float from **, no failing assert *)
+Theorem C05_ops_crash_only_refusal : forall (o : binop) (a b : Z),
+  exists f, infix_body (binop_text o) = Some f /\
+            forall s, f a b = Crash s -> s = "MemoryError" /\ (max_shift < b)%Z.
+Proof. exact ops_crash_only_refusal. Qed.
+Print Assumptions C05_ops_crash_only_refusal.
+
+(* the shift laws: within the bound << and _ multiply by 2^b exactly; beyond it they are refused *)
+Theorem C05_shl_is_mul : forall a b : Z, (0 <= b <= max_shift)%Z -> sem_bin BShl a b = Ok (a * 2 ^ b)%Z.
+Proof. exact shl_is_mul. Qed.
+Print Assumptions C05_shl_is_mul.
+Theorem C05_lsh_is_mul : forall a b : Z, (0 <= b <= max_shift)%Z -> sem_bin BLsh a b = Ok (a * 2 ^ b)%Z.
+Proof. exact lsh_is_mul. Qed.
+Print Assumptions C05_lsh_is_mul.
+Theorem C05_shl_refused : forall a b : Z, (max_shift < b)%Z ->
+  sem_bin BShl a b = Err ["too-complex"] /\ sem_bin BLsh a b = Err ["too-complex"].
+Proof. exact shl_refused. Qed.
+Print Assumptions C05_shl_refused.
+Theorem C05_shr_is_div : forall a b : Z, (0 <= b)%Z -> sem_bin BShr a b = Ok (a / 2 ^ b)%Z.
+Proof. exact shr_is_div. Qed.
+Print Assumptions C05_shr_is_div.
 
 (* the floor convention of / and %: a = b*q + r with r carrying the sign of the divisor *)
 Theorem C05_div_mod_floor : forall a b q r : Z, b <> 0%Z ->
@@ -156,6 +182,14 @@ Proof. vm_compute. reflexivity. Qed.
 Example C05_example_floor : sem_bin BDiv (-7) 2 = Ok (-4)%Z /\ sem_bin BMod (-7) 2 = Ok 1%Z
   /\ sem_bin BDiv 7 (-2) = Ok (-4)%Z /\ sem_bin BMod 7 (-2) = Ok (-1)%Z /\ sem_bin BDiv 1 0 = Err ["arithmetic-error"]
   /\ sem_bin BShl 1 (-1) = Err ["arithmetic-error"] /\ sem_bin BLsh (-7) (-1) = Ok (-4)%Z.
+Proof. vm_compute. repeat split; reflexivity. Qed.
+(* the bound itself: 65536 bits are shifted, 65537 are refused, by the body translated from the source *)
+Example C05_example_shift_bound :
+  match res_of (body_lshift 1 65536) with Ok v => Z.eqb (Z.log2 v) 65536 | _ => false end = true
+  /\ res_of (body_lshift 1 65537) = Err ["too-complex"]
+  /\ res_of (body_lsh 0 (2 ^ 100)) = Err ["too-complex"]
+  /\ res_of (body_rshift 1 (-65537)) = Err ["arithmetic-error"; "too-complex"]
+  /\ MAX_SHIFT = max_shift.
 Proof. vm_compute. repeat split; reflexivity. Qed.
 Example C05_example_89 : lex_number false "1289" = LexNum 1289 true false /\ lex_number true "8" = LexNum (-8) false true.
 Proof. vm_compute. split; reflexivity. Qed.
